@@ -173,6 +173,38 @@ def run(ctx):
     ctx.check(len(tm) >= 1, "fields:too-many-variant", "no path reports TooManyFields", where)
     ctx.floor("from_fen Ok paths", len(oks), 1)
     # ------------------------------------------------------------------ non-empty fields + count exactness
+    # the clocks are stored as read: the value a clock stage leaves in the board is the number its text parses to, not a
+    # function of it (a clock "capped" on the way in answers for a different record than the one given)
+    ctx.rule("clock-fields-stored-as-read")
+    nclk = 0
+    for kind_, fkey in (("half", "halfmove_clock"), ("full", "fullmove_number")):
+        try:
+            st_ = g.stage_for(FROM_FEN, kind_)
+        except Exception:
+            continue                       # filled in from_fen's own body: covered by the gate's range validation of the stored value
+        sb_ = f.need(st_)
+        tps = [sb_.local_name(i) for i in range(1, sb_.argc + 1) if sb_.locals[i]["ty"] == "&str"]
+        bps = [sb_.local_name(i) for i in range(1, sb_.argc + 1) if sb_.locals[i]["ty"] == "&mut " + B]
+        if len(tps) != 1 or len(bps) != 1:
+            continue
+        sp_ = ("ptr", ("P", tps[0]), (), False)
+        parsed = ("call", "str::parse", (sp_,))
+        want_vals = {("field", ("downcast", parsed, "Ok"), "0"),
+                     ("field", ("downcast", ("call", "core::result::Result<T, E>::ok", (parsed,)), "Some"), "0")}
+        own_ = g.exclusive_inline(st_) if hasattr(g, "exclusive_inline") else None
+        for p_ in sym.SymExec(f, sb_, max_paths=200000).run():
+            if not g.path_succeeds(st_, p_)[0]:
+                continue
+            v_ = p_.store.get(("P", bps[0]))
+            val = None
+            while isinstance(v_, tuple) and v_ and v_[0] == "with":
+                if v_[2] == ("f", g.fld[fkey]) and val is None:
+                    val = v_[3]
+                v_ = v_[1]
+            nclk += 1
+            ctx.check(val in want_vals, "clock-stored-as-read:%s" % kind_,
+                      "the %s stage leaves %s in the board, which is not the number its text parses to" % (kind_, sym.show(val)[:140] if val else "nothing"), loc(sb_),
+                      sample={"stage": st_.rsplit("::", 1)[-1], "stored": "str::parse(text)"} if nclk == 1 else None)
     ctx.rule("non-empty-fields")
     for st in stages:
         sb = f.need(st)
